@@ -108,6 +108,19 @@ def roundtrip_case(d, rng, shuffles):
         except Exception as e:
             fails.append({"what": "decoding shuffled quads raised", "exc": repr(e)[:300]})
             break
+    if fails:
+        return fails
+    # the same document after it has been looked at: the read accessors change nothing a writer may go by
+    for c in [d] + list(d.bundles):
+        for r in c.get_records():
+            r.label, r.value, r.get_asserted_types(), r.get_attribute("prov:role"), r.args, r.formal_attributes, r.extra_attributes
+            str(r), hash(r)
+    try:
+        d4 = M.ProvDocument.deserialize(content=d.serialize(format="rdf"), format="rdf")
+        if sc_doc(d4) != want:
+            fails.append({"what": "after the records have been inspected through read accessors the RDF round trip gives another document"})
+    except Exception as e:
+        fails.append({"what": "RDF round trip raised after the records had been inspected", "exc": repr(e)[:300]})
     return fails
 
 
